@@ -66,7 +66,13 @@ def ref_discrete(case, labels):
         new = {}
         for u in infecteds:
             for v, _ in adj[u]:
-                if st[v] == "S" and simcases.keyed(tabs.seed, "c", u, v) < 0.55:
+                if st[v] != "S":
+                    continue
+                if case.get("age_rule"):
+                    ok = simcases.keyed(tabs.seed, "ca", u, v, tabs.count.get(("rec", u), 0)) < 0.45
+                else:
+                    ok = simcases.keyed(tabs.seed, "c", u, v) < 0.55
+                if ok:
                     new.setdefault(v, []).append(u)
         stay = []
         for u in infecteds:
@@ -441,6 +447,7 @@ def run_one(family, rng, idx, tier):
                                  horizon=rng.choice(["inf", "default", "finite", "finite", "at_tmin"]),
                                  directed=rng.random() < 0.3)
         case["det_rule"] = True
+        case["age_rule"] = bool(case["recovery_rule"]) and rng.random() < 0.5
         v = one_dsir(case)
         h = hashlib.sha256(repr((case["graph"], case["tabseed"], case["I0"], case["R0"], case["tmin"], case["tmax"], case["recovery_rule"])).encode())
         out = {"viol": v, "stats": {"evaluations": 1, "with_recovery_rule": 1 if case["recovery_rule"] else 0},
